@@ -381,14 +381,13 @@ impl Scenario for ConnScenario {
                 pl.abort();
             }
             env.quiesce().await;
-            let mut bases = Vec::new();
             for t in req_tasks {
+                // the base port is released at once: a request waiting for a local port may need it
                 if let Ok((kept, base)) = t.await {
                     drop(kept);
-                    bases.push(base);
+                    drop(base);
                 }
             }
-            drop(bases);
             keep_a.lock().unwrap().clear();
             if let Some(pl) = port_listener {
                 let _ = pl.await;
